@@ -50,7 +50,16 @@ Verdict propJsgf(Choices &c, Ctx &ctx) {
     g.rules.push_back(rule);
   }
   // --- class injection ---
-  size_t klass = c.weighted({50, 8, 6, 5, 5, 5, 6, 5, 5, 3, 2});
+  // one choice: the remainder picks among the first eleven classes with weights 50,8,6,5,5,5,6,5,5,3,2 (as it always
+  // did, so replay files stay valid); one quotient value in twelve selects class 11
+  uint32_t klassRaw = c.raw();
+  size_t klass = 0;
+  {
+    static const int W[] = {50, 8, 6, 5, 5, 5, 6, 5, 5, 3, 2};
+    int r = (int)(klassRaw % 100);
+    while (r >= W[klass]) r -= W[klass++];
+    if ((klassRaw / 100) % 12 == 11) klass = 11;
+  }
   const std::string w = g.words[0], v = g.words[1], u = g.words[nw - 1];
   auto addRule = [&](const std::string &name, std::vector<Node> alts) {
     Rule r;
@@ -136,6 +145,25 @@ Verdict propJsgf(Choices &c, Ctx &ctx) {
     }
     refX = true;
     break;
+  case 11: { // embedded recursion through two rules: <y> uses <x> in non-tail position and <x> refers back to <y>
+    // at its tail; <x> may in addition have perfectly legal tail references to itself, before or after that one
+    g.klass = "embedded-recursion:mutual";
+    g.mustRefuse = true;
+    std::vector<Node> xa;
+    Node back = mkSeq({mkTok(u), mkRef("y")});
+    int nself = (int)c.range(0, 2);
+    size_t pos = (size_t)c.range(0, nself);
+    for (int i = 0; i < nself; ++i) xa.push_back(mkSeq({mkTok(i ? v : w), mkRef("x")}));
+    xa.insert(xa.begin() + (long)pos, back);
+    if (c.coin(40)) xa.insert(xa.begin() + (long)c.range(0, (int64_t)xa.size()), mkSeq({mkTok(v)}));
+    addRule("x", xa);
+    addRule("y", order(mkSeq({mkTok(w), mkRef("x"), mkTok(v)}), mkSeq({mkTok(u)})));
+    // the public rule reaches the cycle through <y>
+    Node s = mkSeq({mkRef("y")});
+    if (c.coin(40)) s.kids.push_back(mkTok(u));
+    addAlt(g.rules[0].body, s, c.coin(50));
+    break;
+  }
   }
   if (refX) {
     // reference <x> from the public rule, in tail or non-tail position
